@@ -198,4 +198,130 @@ theorem foldlM_mapInPlace (g : Int → Int) (xs : List Int) (n : Nat) :
   · simp only [h, if_false]
     exact foldlM_mapInPlace_prefix g xs n (by omega)
 
+/-! ### rectangle scans (`thresholdBlock`, the global `GetBlackMatrix` loop): read, test, `Set` — pixel by pixel -/
+
+open Gzx.Bits in
+/-- `BitMatrix.Set(x, y)` on the word slice of a matrix with row size `rs` (`WMat.set` without the record around it) -/
+def setW (rs : Nat) (ws : List Nat) (x y : Nat) : Res (List Nat) :=
+  updWord ws (y * rs + x / 32) (fun w => w ||| 1 <<< (x % 32))
+
+/-- one pixel as the Go loops run it: checked read of `luminances[(y0+yy)*w + x0 + xx]`, test, `Set(x0+xx, y0+yy)` -/
+def cellW (lum : List Nat) (w x0 y0 : Nat) (test : Nat → Bool) (rs yy : Nat) (ws : List Nat) (xx : Nat) : Res (List Nat) :=
+  match lum[(y0 + yy) * w + x0 + xx]? with
+  | none => .error oob
+  | some p => if test (p % 256) then setW rs ws (x0 + xx) (y0 + yy) else .ok ws
+
+def rowW (lum : List Nat) (w x0 y0 nx : Nat) (test : Nat → Bool) (rs : Nat) (ws : List Nat) (yy : Nat) : Res (List Nat) :=
+  (List.range' 0 nx).foldlM (cellW lum w x0 y0 test rs yy) ws
+
+def rectW (lum : List Nat) (w x0 y0 nx ny : Nat) (test : Nat → Bool) (rs : Nat) (ws : List Nat) : Res (List Nat) :=
+  (List.range' 0 ny).foldlM (rowW lum w x0 y0 nx test rs) ws
+
+/-- the `Set` calls of the model, applied in order -/
+def applySets (rs : Nat) (ws : List Nat) (l : List (Nat × Nat)) : Res (List Nat) :=
+  l.foldlM (fun ws p => setW rs ws p.1 p.2) ws
+
+/-- the mirror and the model's list of `Set` calls say the same -/
+def ScanAgrees (rs : Nat) (ws : List Nat) (mirror : Res (List Nat)) : Res (List (Nat × Nat)) → Prop
+  | .ok l => mirror = applySets rs ws l
+  | .error _ => ∃ e, mirror = .error e
+
+theorem applySets_append (rs : Nat) (ws : List Nat) (l1 l2 : List (Nat × Nat)) :
+    applySets rs ws (l1 ++ l2) = (applySets rs ws l1).bind (fun ws' => applySets rs ws' l2) := by
+  simp [applySets, List.foldlM_append, bind]
+
+theorem cells_agree (lum : List Nat) (w x0 y0 : Nat) (test : Nat → Bool) (rs yy : Nat) :
+    ∀ (xs : List Nat) (ws : List Nat),
+      match mapME (scanCell lum.toArray w x0 y0 test yy) xs with
+      | .ok cells => xs.foldlM (cellW lum w x0 y0 test rs yy) ws = applySets rs ws (cells.filterMap keepSet)
+      | .error _ => ∃ e, xs.foldlM (cellW lum w x0 y0 test rs yy) ws = .error e := by
+  intro xs
+  induction xs with
+  | nil => intro ws; simp [mapME, applySets, pure, Except.pure]
+  | cons x xs ih =>
+    intro ws
+    simp only [mapME, scanCell, rd, List.getElem?_toArray, List.foldlM, cellW]
+    cases hl : lum[(y0 + yy) * w + x0 + x]? with
+    | none => simp [bind, Except.bind]
+    | some p =>
+      simp only [bind, Except.bind]
+      by_cases ht : test (p % 256) = true
+      · simp only [ht, if_true]
+        cases hs : setW rs ws (x0 + x) (y0 + yy) with
+        | error e =>
+          cases mapME (scanCell lum.toArray w x0 y0 test yy) xs with
+          | error e' => exact ⟨e, rfl⟩
+          | ok cells => simp [keepSet, applySets, hs, bind, Except.bind]
+        | ok ws' =>
+          have := ih ws'
+          cases hm : mapME (scanCell lum.toArray w x0 y0 test yy) xs with
+          | error e' => rw [hm] at this; exact this
+          | ok cells =>
+            rw [hm] at this
+            simp only [] at this ⊢
+            rw [this]
+            simp [keepSet, applySets, hs, bind, Except.bind]
+      · have ht' : test (p % 256) = false := by simpa using ht
+        simp only [ht', Bool.false_eq_true, if_false]
+        have := ih ws
+        cases hm : mapME (scanCell lum.toArray w x0 y0 test yy) xs with
+        | error e' => rw [hm] at this; exact this
+        | ok cells =>
+          rw [hm] at this
+          simp only [] at this ⊢
+          rw [this]
+          simp [keepSet]
+
+/-- **rectangle scan**: the pixel-by-pixel mirror of the Go loops and `Binarizer.scanRect` agree — the same `Set` calls in the
+    same order when every read succeeds, a panic otherwise -/
+theorem rectW_agrees (lum : List Nat) (w x0 y0 nx ny : Nat) (test : Nat → Bool) (rs : Nat) (ws : List Nat) :
+    ScanAgrees rs ws (rectW lum w x0 y0 nx ny test rs ws) (scanRect lum.toArray w x0 y0 nx ny test) := by
+  unfold rectW scanRect
+  rw [List.range_eq_range']
+  have key : ∀ (ys : List Nat) (ws : List Nat),
+      match mapME (scanCells lum.toArray w x0 y0 nx test) ys with
+      | .ok rows => ys.foldlM (rowW lum w x0 y0 nx test rs) ws = applySets rs ws (rows.flatten.filterMap keepSet)
+      | .error _ => ∃ e, ys.foldlM (rowW lum w x0 y0 nx test rs) ws = .error e := by
+    intro ys
+    induction ys with
+    | nil => intro ws; simp [mapME, applySets, pure, Except.pure]
+    | cons y ys ih =>
+      intro ws
+      simp only [mapME, List.foldlM, scanCells, rowW]
+      rw [List.range_eq_range']
+      have hc := cells_agree lum w x0 y0 test rs y (List.range' 0 nx) ws
+      cases hcm : mapME (scanCell lum.toArray w x0 y0 test y) (List.range' 0 nx) with
+      | error e =>
+        rw [hcm] at hc
+        obtain ⟨e', he'⟩ := hc
+        simp only []
+        exact ⟨e', by rw [he']; rfl⟩
+      | ok cells =>
+        rw [hcm] at hc
+        simp only [] at hc ⊢
+        rw [hc]
+        cases hr : applySets rs ws (List.filterMap keepSet cells) with
+        | error e =>
+          simp only [bind, Except.bind]
+          cases mapME (scanCells lum.toArray w x0 y0 nx test) ys with
+          | error e' => exact ⟨e, rfl⟩
+          | ok rows =>
+            simp only [List.flatten_cons, List.filterMap_append, applySets_append, hr]
+            rfl
+        | ok ws' =>
+          simp only [bind, Except.bind]
+          have := ih ws'
+          cases hm : mapME (scanCells lum.toArray w x0 y0 nx test) ys with
+          | error e' => rw [hm] at this; exact this
+          | ok rows =>
+            rw [hm] at this
+            simp only [] at this ⊢
+            rw [this]
+            simp only [List.flatten_cons, List.filterMap_append, applySets_append, hr]
+            rfl
+  have := key (List.range' 0 ny) ws
+  cases hm : mapME (scanCells lum.toArray w x0 y0 nx test) (List.range' 0 ny) with
+  | error e => rw [hm] at this; exact this
+  | ok rows => rw [hm] at this; exact this
+
 end Gzx.K17
